@@ -127,6 +127,11 @@ func runOne(seed int64, prof Profile, steps, stabilize, tr int, sum *RunSummary,
 	}
 	c2.emit(&Event{Act: "Init", Cl: clampCl(c2.Cl)}, nil)
 	for _, s := range c.Sched {
+		if s.Act == "Stabilized" {
+			c2.Quiet = false
+		} else if stabilize > 0 && !c2.Quiet && len(c2.Sched) >= c.quietFrom && c.quietFrom > 0 {
+			c2.Quiet = true
+		}
 		c2.Do(s)
 	}
 	diffs := c2.CmpDiffs
